@@ -25,6 +25,7 @@ func CheckC01Epochs(sc Scenario, rec *Rec) error {
 	var anc IORoles
 	hidden := 0
 	return runScenario(sc, epochHooks{
+		turnoverMustSucceed: true,
 		built: func(pop *genetics.Population, _ *neat.Options) error {
 			anc = ancestorsOf(pop)
 			return checkAllWellFormed(pop, anc)
